@@ -594,17 +594,13 @@ example : Gen.SrcSus.sus [0] [-1, -1] = Rs.Res.panic := by decide
 
 /-! ### translated text of `lcp` (Kasai; `RbV/Gen/SrcLcp.lean`, regenerated on every run; builder gensa, `tools/rs2lean_gensa.py`) -/
 
-/-- translated `lcp` = mirror model `Kasai.kasai` (inverse-permutation loop, `while` extension, `lcp.set(rank[p], l)`, `l - 1`)
-for every permutation `sa` of the positions of a non-empty text that starts with `n - 1`: no index out of range, no
-underflow of `rank[p] - 1`, the loop fuel `n + 1` suffices, `l as isize` is exact -/
-theorem lcp_source_eq_model (t sa : List Nat) (hperm : sa.Perm (List.range t.length))
-    (hhead : sa.head? = some (t.length - 1)) (hn : 0 < t.length) (hsz : t.length + 1 < 2 ^ 63) :
-    Gen.SrcLcp.lcp t sa = Rs.Res.ok (Kasai.kasai t sa) :=
-  Thm.GenSrcLcp.lcp_eq_model t sa hperm hhead hn hsz
+-- (the step-by-step equality `translated lcp = Kasai.kasai` on every permutation starting with `n - 1` —
+-- `RbV.Thm.GenSrcLcpModel.lcp_eq_model` — is a *soft* obligation since the model-free proof of `lcp_source_exact` exists:
+-- another carried `l`, or another LCP algorithm (seeded change C03-H4), keeps the property)
 
 /-- **the translated `lcp` on every accepted suffix array of a single-sentinel text returns `lcpRef`** (length `n + 1`, `-1` at
-both ends, longest common prefix of neighbouring suffixes inside: `lcpRef_spec`) — no mirror model left between the text of
-the function and the reference -/
+both ends, longest common prefix of neighbouring suffixes inside: `lcpRef_spec`) — proved model-free (loop invariant `l ≤` true
+LCP with the predecessor, `Thm.GenSrcLcp.for2_sorted`), no mirror model between the text of the function and the reference -/
 theorem lcp_source_exact (t sa : List Nat) (hc : checkSA t sa = true)
     (hsingle : ∀ p, t[p]? = some (sentinelOf t) → p = t.length - 1)
     (hmin : ∀ p, p < t.length → sentinelOf t ≤ t.getD p 0) (hn : 2 ≤ t.length) (hsz : t.length + 1 < 2 ^ 63) :
